@@ -12,3 +12,6 @@ import Mdsort.Proofs.ConfAnywhere4
 import Mdsort.Proofs.ConfAnywhere5
 import Mdsort.Proofs.ConfAnywhere6
 import Mdsort.Proofs.ConfAnywhere7
+import Mdsort.Model.Strptime
+import Mdsort.Spec.Rfc5322Date
+import Mdsort.Proofs.Strptime
